@@ -69,6 +69,8 @@ def run(ctx, col, tier):
     from ..rules import smalllints2 as _s2
     _s2.run_pathio(ctx, col, ('swcgeom.core.swc_utils.io', 'swcgeom.core.tree', 'swcgeom.core.swc', 'swcgeom.core.population'))
     _s2.run_clip(ctx, col, ('swcgeom.core.swc_utils.normalizer', 'swcgeom.core.swc_utils.io'))
+    _s2.run_splitlines(ctx, col, ('swcgeom.core.swc_utils.io', 'swcgeom.core.tree'))
+    _s2.run_twice(ctx, col, ('swcgeom.core.swc_utils.io', 'swcgeom.core.tree', 'swcgeom.core.swc'))
     col.guard(r_capture, ctx, col, "R-CAPTURE")
     col.guard(r_rowlang, ctx, col)
     from .c05 import table_gather_keys
